@@ -281,6 +281,9 @@ def cases(tier, seed):
     for frames in ([], [1], [1, 2], [0], [0, 1], [1, 0]):
         for pre in (False, True):
             out.append({"part": "wait", "frames": frames, "pre_received": pre, "P": P})
+    for nw in ((2,) if tier == "quick" else (2, 3)):
+        for lo, hi in ((0, 4), (4, 8), (8, 12), (12, 18), (18, 26), (26, 40), (40, 100000)):
+            out.append({"part": "wait-many", "waiters": nw, "P": 2 if tier == "quick" else (3 if nw == 2 else 2), "range": [lo, hi]})
     for nframes in (1, 2):
         for reads in (1, 2):
             for warm in (False, True):
@@ -555,7 +558,74 @@ def run_access_paths(case, st):
                 st.violation(f"C15:access-path:raises:{type(e).__name__}", rc, "value transferred", repr(e)[:120])
 
 
+def run_wait_many(case, st):
+    """Several application threads wait for the next reception of the same map; one frame arrives: every waiter that was
+    waiting when the delivery began gets its timestamp."""
+    import canopen
+    import canopen.pdo.base as pb
+    vsched.interpose(pb.PdoMap, {"is_received", "timestamp", "data", "period"})
+    TIMEOUT = 1.0
+    nw = case["waiters"]
+
+    def harness(s):
+        node = canopen.RemoteNode(5, od())
+        m = node.tpdo[1]
+        m.cob_id = 0x185
+        m.clear()
+        m.add_variable(0x2000)
+        t0 = simenv.W.now
+
+        def waiter():
+            r = m.wait_for_reception(TIMEOUT)
+            return (r, round(simenv.W.now - t0, 3))
+
+        def receiver():
+            s.note(("deliver", 1))
+            m.on_message(0x185, bytearray([1]), 11.0)
+        ws = [s.spawn(waiter, "waiter%d" % i) for i in range(nw)]
+        s.spawn(receiver, "receiver")
+        return lambda: ([w.res if w.exc is None else ("EXC", repr(w.exc)[:60]) for w in ws], tuple(s.events), s.deadlock)
+
+    def on_exec(s, out):
+        res, events, deadlock = out
+        st.evaluations += 1
+        st.traces += 1
+        st.transitions += len(s.trace)
+        if s.pre:
+            st.nontrivial_n += 1
+        rc = dict(case, schedule=[t[1] for t in s.trace])
+        if deadlock:
+            st.violation("C15:wait-many:deadlock", rc, "no deadlock", deadlock)
+            return
+        dl = next((i for i, e in enumerate(events) if e[0] == "deliver"), None)
+        for wi, r in enumerate(res):
+            if r[0] == "EXC":
+                st.violation("C15:wait-many:exception", rc, "timestamp or None", r[1])
+                return
+            entered = next((i for i, e in enumerate(events) if e[0] == "wait-enter" and e[1] == "waiter%d" % wi), None)
+            ts, t = r
+            if entered is not None and dl is not None and entered < dl:
+                if ts != 11.0 or t >= TIMEOUT:
+                    st.violation("C15:wait-many:waiter-misses-the-frame", rc, "every waiter that was waiting gets 11.0",
+                                 f"waiter {wi}: {r}; all: {res}")
+                    return
+            elif ts is None and t < TIMEOUT - 0.01:
+                st.violation("C15:wait-many:gives-up-before-the-timeout", rc, "None only at the time-out", f"waiter {wi}: {r}")
+                return
+        st.outcome("wait-many ok")
+
+    if "schedule" in case:
+        on_exec(*vsched.replay(harness, case))
+        return
+    stats = vsched.explore_schedules(harness, case["P"], on_exec=on_exec, first_dev_range=tuple(case["range"]))
+    st.states += stats["executions"]
+    st.count("schedules", stats["executions"])
+    st.count("schedules_with_preemption", stats["with_preemption"])
+
+
 def run_case(case, st):
+    if case["part"] == "wait-many":
+        return run_wait_many(case, st)
     if case["part"] == "access-paths":
         return run_access_paths(case, st)
     if case["part"] == "read-race":
